@@ -145,6 +145,17 @@ PROPS = {
         open=["sequence-level order independence for arbitrary programs under different iteration orders (beyond the atom-level C09_order_independent_tree) is carried by the forced-order and multi-process runs"],
         multi_process=dict(quick=2, thorough=8),
     ),
+    "C21": dict(
+        title="LTerm equality, hashing and list operations",
+        props_module="PvModel.Props.C21",
+        rule="direct calls of the public LTerm API on generated terms (all four literal kinds, variables, nested proper/improper lists, three "
+             "compound types, depth<=4): ==/hash on pairs (half equal copies or near variants), from_vec/from_array/collect, improper_from_vec, "
+             "iter, iter_mut, extend, indexing, head/tail/is_list/is_empty/is_improper, contains, Display; oracle: Vec-based definitions and a "
+             "derived structural equality written in the harness; non-trivial = an operand of depth>1; distinct = distinct case lines",
+        trusted=COMMON_TRUST + ["variable names are not part of the Term model (PartialEq/Hash of Var use the id only); Display of variables is fixed to the name `x`, compounds' Debug form is not modelled"],
+        assumptions=["User and Projection terms are outside the model (comparing/hashing a projection panics by design: C23)"],
+        open=[],
+    ),
     "C01": dict(
         title="unification (State::unify vs unifyF)",
         props_module="PvModel.Props.C01",
